@@ -311,54 +311,67 @@ Example C03_sphere_nonvacuous :
   is_support (sphere_set (V 1 2 3) 2) (V 0 0 0) (support_sphere (V 0 0 0) (V 1 2 3) 2) /\
   is_support (sphere_set (V 1 2 3) 2) (V 3 0 (-4)) (support_sphere (V 3 0 (-4)) (V 1 2 3) 2).
 Proof. split; apply C03_sphere; lra. Qed.
+Print Assumptions C03_sphere_nonvacuous.
 Example C03_cylinder_nonvacuous :
   is_support (cylinder_set T45 2 4) (V 0 0 (-1)) (support_cylinder (V 0 0 (-1)) T45 2 4) /\
   is_support (cylinder_set T45 2 4) (V 1 1 0) (support_cylinder (V 1 1 0) T45 2 4).
 Proof. split; apply C03_cylinder; lra. Qed.
+Print Assumptions C03_cylinder_nonvacuous.
 Example C03_capsule_nonvacuous :
   is_support (capsule_set T45 (/ 2) 3) (V 1 0 0) (support_capsule (V 1 0 0) T45 (/ 2) 3).
 Proof. apply C03_capsule; lra. Qed.
+Print Assumptions C03_capsule_nonvacuous.
 Example C03_ellipsoid_nonvacuous :
   is_support (ellipsoid_set T45 (V 1 2 3)) (V 0 1 1) (support_ellipsoid (V 0 1 1) T45 (V 1 2 3)).
 Proof. apply C03_ellipsoid; cbn [vx vy vz]; lra. Qed.
+Print Assumptions C03_ellipsoid_nonvacuous.
 Example C03_cone_nonvacuous :
   is_support (cone_set T45 1 2) (V 0 0 1) (support_cone (V 0 0 1) T45 1 2) /\
   is_support (cone_set T45 1 2) (V 1 0 (-1)) (support_cone (V 1 0 (-1)) T45 1 2).
 Proof. split; apply C03_cone; lra. Qed.
+Print Assumptions C03_cone_nonvacuous.
 Example C03_disk_nonvacuous :
   is_support (disk_set (V 1 2 3) 2 (V 0 (3 / 5) (4 / 5))) (V 1 0 0)
              (support_disk (V 1 0 0) (V 1 2 3) 2 (V 0 (3 / 5) (4 / 5))).
 Proof. apply C03_disk; [lra|vunfold; field]. Qed.
+Print Assumptions C03_disk_nonvacuous.
 Example C03_ellipse_nonvacuous :
   is_support (ellipse_set (V 1 2 3) (V 1 0 0) (V 0 1 0) 2 3) (V 1 1 1)
              (support_ellipse (V 1 1 1) (V 1 2 3) (V 1 0 0) (V 0 1 0) 2 3).
 Proof. apply C03_ellipse; lra. Qed.
+Print Assumptions C03_ellipse_nonvacuous.
 Example C03_box_sign_form_nonvacuous :
   is_support (box_half_set T45 (V 1 2 3)) (V 0 1 (-1)) (support_box (V 0 1 (-1)) T45 (V 1 2 3)).
 Proof. apply C03_box_sign_form; cbn [vx vy vz]; lra. Qed.
+Print Assumptions C03_box_sign_form_nonvacuous.
 Example C03_box_collider_nonvacuous :
   exists s, support_box_collider (V 0 1 (-1)) T45 (V 2 4 6) = Some s /\
             is_support (box_set T45 (V 2 4 6)) (V 0 1 (-1)) s.
 Proof. apply C03_box_collider; cbn [vx vy vz]; lra. Qed.
+Print Assumptions C03_box_collider_nonvacuous.
 Example C03_hull_nonvacuous :
   exists s, support_hull (V 1 (/ 2) (/ 4)) octa_vs = Some s /\ is_support (conv_hull octa_vs) (V 1 (/ 2) (/ 4)) s.
 Proof.
   destruct (C03_hull_total (V 1 (/ 2) (/ 4)) octa_vs) as [s Hs]; [discriminate|].
   exists s. split; [exact Hs|apply C03_hull; exact Hs].
 Qed.
+Print Assumptions C03_hull_nonvacuous.
 Example C03_margin_nonvacuous :
   is_support (inflate (sphere_set (V 1 2 3) 2) (/ 2)) (V 3 0 (-4))
              (support_margin (support_sphere (V 3 0 (-4)) (V 1 2 3) 2) (V 3 0 (-4)) (/ 2)).
 Proof. apply C03_margin; [lra|apply C03_sphere; lra]. Qed.
+Print Assumptions C03_margin_nonvacuous.
 (** the octahedron with its edge graph satisfies [LocalMaxGlobal] (delta = 0) and
     [conn_closed], and a query from a cached vertex on the far side is answered *)
 Example C03_mesh_hypotheses_nonvacuous :
   LocalMaxGlobal (V 1 (/2) (/4)) octa_vs octa_conn 0 /\ conn_closed octa_vs octa_conn.
 Proof. exact LocalMaxGlobal_octahedron_nonvacuous. Qed.
+Print Assumptions C03_mesh_hypotheses_nonvacuous.
 Example C03_mesh_query_nonvacuous :
   exists idx p, mesh_query 7 (P ident (V 0 0 0)) octa_vs octa_conn [0; 2; 4; 1; 3; 5]%nat 3%nat (V 1 (/2) (/4))
                 = Some (idx, p).
 Proof. exact mesh_query_octahedron_nonvacuous. Qed.
+Print Assumptions C03_mesh_query_nonvacuous.
 
 (** ** per-input verdicts: soundness of the certificate checker the harness evaluates with
        vm_compute on the exact rationals of the implementation's answer ([sem S] is the
